@@ -1,7 +1,7 @@
 (* C10 — Subgraph extraction returns exactly the induced subgraph.  Statements only; proofs in TopologyProofs.v.
-   PARTIAL: proved for directed graphs (every label type, every duplicate-free iteration order of the unordered_set, every subset incl.
-   empty and full); the undirected instantiation is tied to the implementation and the spec (s_induced / s_image) by correspondence only. *)
-From BG Require Import Base DirectedModel DirectedProofs TopologyModel TopologyProofs.
+   Proved for directed graphs (TopologyProofs.v) and for undirected graphs (UFoldProofs.v, UTopologyProofs.v): every label type, every
+   duplicate-free iteration order of the unordered_set, every subset incl. empty and full. *)
+From BG Require Import Base DirectedModel DirectedProofs UndirectedModel UndirectedProofs Equality TopologyModel TopologyProofs UFoldProofs UTopologyProofs.
 
 (* getSubgraph(g, S): as many vertices as g, exactly the edges of g with both endpoints in S, with their labels *)
 Theorem C10_subgraph_is_induced : forall (L : Type) (ldef : L) hs (g : @dgraph L) (so : list nat),
@@ -38,3 +38,28 @@ Example C10_example :
   omap (fun h => (adj h, labels h)) (subgraph 0%Z true repaired false g [3; 1]) = Val ([[]; [3]; []; [3]], [((1, 3), 5%Z); ((3, 3), 2%Z)]) /\
   omap (fun r => (adj (fst r), snd r)) (subgraph_remap 0%Z true repaired false g [3; 1]) = Val ([[0]; [0]], [(3, 0); (1, 1)]).
 Proof. vm_compute. auto. Qed.
+
+(* ---- the undirected instantiation (the loop meets every edge from both endpoints; the second, unforced insertion is ignored) ---- *)
+Theorem C10_undirected_subgraph_is_induced : forall (L : Type) (ldef : L) hs (g : @dgraph L) (so : list nat),
+  InvU hs g -> NoDup so -> (forall i, In i so -> i < size g) ->
+  exists h, subgraph ldef hs repaired true g so = Val h /\ InvU hs h /\ KeysOK h /\ size h = size g /\
+    (forall i j, In j (nb h i) <-> In i so /\ In j so /\ In j (nb g i)) /\
+    (hs = true -> forall i j, In i so -> In j so -> lfind (ordered i j) (labels h) = if mem j (nb g i) then lfind (ordered i j) (labels g) else None) /\
+    (forall i j, In j (nb h i) -> u_get_label ldef hs h i j true = u_get_label ldef hs g i j true).
+Proof. intros L ldef hs g so. exact (subgraph_undirected_induced ldef hs g so). Qed.
+Print Assumptions C10_undirected_subgraph_is_induced.
+Theorem C10_undirected_subgraph_with_remap : forall (L : Type) (ldef : L) hs (g : @dgraph L) (so : list nat),
+  InvU hs g -> NoDup so -> (forall i, In i so -> i < size g) ->
+  exists h fm, subgraph_remap ldef hs repaired true g so = Val (h, fm) /\ InvU hs h /\ KeysOK h /\ size h = length so /\
+    fm = map (fun v => (v, index_of v so)) so /\
+    (forall v, In v so -> index_of v so < length so) /\
+    (forall x y, In x so -> In y so -> index_of x so = index_of y so -> x = y) /\
+    (forall k, k < length so -> exists v, In v so /\ index_of v so = k) /\
+    (forall a b, In b (nb h a) <-> exists i j, a = index_of i so /\ b = index_of j so /\ In i so /\ In j so /\ In j (nb g i)) /\
+    (forall i j, In i so -> In j so -> (In (index_of j so) (nb h (index_of i so)) <-> In j (nb g i))) /\
+    (hs = true -> forall i j, In i so -> In j so ->
+       lfind (ordered (index_of i so) (index_of j so)) (labels h) = if mem j (nb g i) then lfind (ordered i j) (labels g) else None) /\
+    (forall i j, In i so -> In j so -> In j (nb g i) ->
+       u_get_label ldef hs h (index_of i so) (index_of j so) true = u_get_label ldef hs g i j true).
+Proof. intros L ldef hs g so. exact (subgraph_remap_undirected ldef hs g so). Qed.
+Print Assumptions C10_undirected_subgraph_with_remap.
